@@ -203,7 +203,7 @@ func TestCheck(t *testing.T) {
 	rec.Assume("HTTP: the scripted backend answers with JSON objects only (other bodies are not asserted); in-flight = requests that reached the backend and were not yet released by the script")
 	rec.Assume("WS deterministic part: the harness owns the transport (hook NewWSRPCClientWithTransport, build tag verif) and is the only source of events; every schedule of the generated events is exact, but preemption inside one library function (e.g. notification delivery racing Unsubscribe inside the receive loop) is not explored and not asserted")
 	rec.Assume("WS deterministic part, cancellation racing a reply: a call (or Unsubscribe) whose context is cancelled while the reply to its request is handed over - neither waited for, both orders, also under GOMAXPROCS 1/2/4 - may return its own reply or the context error; nothing else, and every later call must still receive exactly the reply to its own request")
-	rec.Assume("WS deterministic part, Subscribe cancelled while pending: the Subscribe returns an error and owns nothing. The server may have processed the request all the same: its late answer (confirmation with a server id, or rejection) and the notifications it then sends for that id are delivered like any other frame; judged with the ordinary invariants only - such a notification reaches no subscription (no Subscribe returned successfully for that id), the receive loop goes on taking frames, every later call / Subscribe / Unsubscribe gets exactly its own reply, a reconnect re-requests only the configured subscriptions. Whether the client keeps an internal entry for the abandoned request is not asserted; the Subscribe is also cancelled while the connection is down, before its request could be sent (no answer can come then)")
+	rec.Assume("WS deterministic part, Subscribe cancelled while pending: the Subscribe returns an error and owns nothing. The server may have processed the request all the same: its late answer (confirmation with a server id, or rejection) and the notifications it then sends for that id are delivered like any other frame; judged with the ordinary invariants only - such a notification reaches no subscription (no Subscribe returned successfully for that id), the receive loop goes on taking frames, every later call / Subscribe / Unsubscribe gets exactly its own reply, a reconnect re-requests only the configured subscriptions. Whether the client keeps an internal entry for the abandoned request is not asserted; the Subscribe is also cancelled while the connection is down, before its request could be sent (no answer can come then); and as the server's answer is handed over (neither waited for, three orders, GOMAXPROCS 1/2/4): the Subscribe may return its subscription - which then owns the server id - or the context error - then the id is nobody's; nothing else. A subscription whose Subscribe context is dead is not waited for by the client when its reader is slow: a notification for it may be dropped (not asserted either way) but must never reach another subscription")
 	rec.Assume("WS socket part: the Go scheduler/kernel own the interleaving; oracle is order-insensitive; calls or Subscribe calls that overlap a down period may either fail or succeed; the real client is never closed (closing a reconnecting firefly-common wsclient is itself racy outside pkg/rpcbackend)")
 	rec.Assume("liveness (completes instead of hanging) is a 30 s bound on an otherwise idle process; trusted base: Go race detector, net/http, gorilla/websocket, resty")
 	kHTTP := evid.NewKind(rec, "http", judgeHTTP)
